@@ -160,6 +160,10 @@ def audit_axioms(module: str, theorems: t.List[str]) -> t.Tuple[t.Dict[str, t.Li
 
 def prove(ctx: Ctx, modules: t.List[str], gen_needed: t.List[str], theorems: t.List[str], sources: t.List[str]) -> None:
     """translate, rebuild, audit; records broken obligations in ctx.broken; fills ctx.cov proof keys"""
+    # the driver imports the property's codec: it is rebuilt with the model even when a check does not list it
+    codec = f"SqlframeModel.Codec.{ctx.prop}"
+    if codec not in modules and os.path.exists(os.path.join(LEAN_DIR, "SqlframeModel", "Codec", ctx.prop + ".lean")):
+        modules = [codec] + list(modules)
     with lean_lock():
         # regenerate only what this property depends on (other properties' Gen modules are left alone, so that
         # checks pointed at different trees do not invalidate each other's compiled modules)
